@@ -123,7 +123,41 @@ def main():
             pairs.append(("p.patch", patch.encode(), "a.go", src.encode()))
             metas.append({"part": "shared-metavar", "patch_form": "n&n", "file_form": fl, "patch_pkg": None, "file_pkg": "p", "on": "context",
                           "layout": LAYOUT[k % 4], "expect": None})
-    res = enginecorr.run(pairs)
+    n_parallel = len(pairs)
+    # (4) the guard is evaluated on the file as the earlier changes of the same run left it
+    A_KINDS = {
+        # name: (patch text, effect on the names under which PATH / OTHER are imported)
+        "replace foo->qux": ("@@\nvar x expression\n@@\n-import \"%s\"\n+import \"%s\"\n\n-foo.Old(x)\n+qux.Old(x)\n" % (PATH, OTHER),
+                             lambda f, q: ([n for n in f if n is not None], q + [None] if None not in q else q) if None in f else None),
+        "add qux": ("@@\nvar x expression\n@@\n+import \"%s\"\n\n-old(x)\n+qux.New(x)\n" % OTHER,
+                    lambda f, q: (f, q + [None] if None not in q else q)),
+        "delete foo": ("@@\nvar x expression\n@@\n-import \"%s\"\n\n-foo.Old(x)\n+gone(x)\n" % PATH,
+                       lambda f, q: ([n for n in f if n is not None], q) if None in f else None),
+        "alias foo as bar": ("@@\nvar x expression\n@@\n-import \"%s\"\n+import bar \"%s\"\n\n-foo.Old(x)\n+bar.Old2(x)\n" % (PATH, PATH),
+                             lambda f, q: ([n for n in f if n is not None] + (["bar"] if "bar" not in f else []), q) if None in f else None),
+    }
+    BODY4 = "func h() {\n\told(1)\n\tfoo.Old(2)\n\tmark(3)\n}\n"
+    for (an, (atext, eff)), (fl, fnames), (bl, bform), bpath_is_other, layout in itertools.product(
+            A_KINDS.items(), [FFORMS[0], FFORMS[1], FFORMS[3], FFORMS[7]], PFORMS[1:5], (False, True), LAYOUT[:2]):
+        k += 1
+        qnames = []
+        after = eff(list(fnames), qnames)
+        bspec = spec(None if bform is None else ("n" if bform == "$n" else bform), OTHER if bpath_is_other else PATH)
+        head = "@@\nvar x expression\nvar n identifier\n@@\n" if bform == "$n" else "@@\nvar x expression\n@@\n"
+        btext = head + " import %s\n\n-mark(x)\n+marked(x)\n" % bspec
+        src = make_file("p", fnames, [], layout, BODY4)
+        if after is None:
+            a_applies, f2, q2 = False, list(fnames), qnames
+        else:
+            a_applies, (f2, q2) = True, after
+        if an == "add qux":
+            a_applies = True
+        expB = ref_import(bform, q2 if bpath_is_other else f2)
+        pairs.append(("p.patch", (atext + btext).encode(), "a.go", src.encode()))
+        metas.append({"part": "after-earlier-change", "patch_form": an + " / then guard " + bl + (" on qux" if bpath_is_other else " on foo"), "file_form": fl,
+                      "patch_pkg": None, "file_pkg": "p", "on": "context", "layout": layout, "expect": None, "expect_steps": (a_applies, expB)})
+    # part 4 runs one case at a time: state kept across changes inside /repo must not be masked by concurrent cases
+    res = enginecorr.run(pairs[:n_parallel]) + enginecorr.run(pairs[n_parallel:], serial=True)
     for k, (pair, m, o) in enumerate(zip(pairs, metas, res)):
         ck.count((pair[1], pair[3]), nontrivial=not o["skipped"])
         for key in ("part", "patch_form", "file_form", "patch_pkg", "file_pkg", "on"):
@@ -136,6 +170,15 @@ def main():
         errd = "err" in (o.get("isteps") or [])
         rep = {"case": "c10#%d" % k, "patch": pair[1].decode(), "file": pair[3].decode(), "meta": m, "steps_gopatch": o.get("isteps"),
                "steps_model": o.get("msteps"), "gopatch_output": vlib.unb64(r["out"]).decode("utf-8", "replace") if r.get("out") else None}
+        if m.get("expect_steps"):
+            ea, eb = m["expect_steps"]
+            got = o.get("isteps") or []
+            ck.tally("expected", "second change %s after the first %s" % ("applies" if eb else "guard fails", "applied" if ea else "did not apply"))
+            want = ["ok" if ea else "nomatch", "ok" if eb else "nomatch"]
+            if got != want:
+                ck.violation("two changes in one run (%s) on a file importing foo as %s: expected %s, gopatch did %s - the guard of the second "
+                             "change must be evaluated on the imports the first one left" % (m["patch_form"], m["file_form"], want, got), rep)
+                continue
         if m["expect"] is not None:
             ck.tally("expected", "applies" if m["expect"] else "guard fails")
             if m["expect"] and not applied and not errd:
